@@ -89,8 +89,16 @@ func (t *memTransport) Send(ctx context.Context, b []byte) ([]byte, error) {
 		}
 		return nil, err
 	}
-	t.txCount++
 	t.curCtx = ctx
+	r := t.onTx(b)
+	return t.read(r)
+}
+
+// onTx records one received request and applies the script's reaction to it:
+// captures, verify recipes, and the datagrams it makes the BMC send (queued in
+// sock / late). It returns the reaction (empty when the script has none left).
+func (t *memTransport) onTx(b []byte) M {
+	t.txCount++
 	t.e.req = append([]byte(nil), b...)
 	ev := M{"ev": "tx", "raw": toInts(b), "n": t.txCount}
 	if t.inSess && t.recipes != nil {
@@ -126,7 +134,7 @@ func (t *memTransport) Send(ctx context.Context, b []byte) ([]byte, error) {
 		if t.unscripted > 6 && t.cancel != nil {
 			t.cancel()
 		}
-		return t.read(M{})
+		return M{}
 	}
 	if cs, ok := r["captures"].([]any); ok {
 		for _, c := range cs {
@@ -156,7 +164,51 @@ func (t *memTransport) Send(ctx context.Context, b []byte) ([]byte, error) {
 			}
 		}
 	}
-	return t.read(r)
+	return r
+}
+
+// serveUDP plays the same script over a real socket: replies are written as soon
+// as they are due; "late" ones after lateDelay (i.e. beyond the console's
+// per-attempt timeout); a lost reply is simply never sent.
+func (t *memTransport) serveUDP(c *net.UDPConn, lateDelay time.Duration) {
+	buf := make([]byte, 2048)
+	for {
+		n, addr, err := c.ReadFromUDP(buf)
+		if err != nil {
+			return
+		}
+		t.mu.Lock()
+		var r M
+		func() {
+			defer func() {
+				if p := recover(); p != nil {
+					t.log(M{"ev": "harnessError", "text": fmt.Sprint(p)})
+					r = M{}
+				}
+			}()
+			r = t.onTx(append([]byte(nil), buf[:n]...))
+		}()
+		now, late := t.sock, t.late
+		t.sock, t.sockA, t.late, t.lateA = nil, nil, nil, nil
+		delay := time.Duration(0)
+		if d, ok := r["delayMs"]; ok {
+			delay = time.Duration(num(d)) * time.Millisecond
+		}
+		t.mu.Unlock()
+		send := func(ds [][]byte) {
+			for _, d := range ds {
+				c.WriteToUDP(d, addr)
+			}
+		}
+		if delay > 0 {
+			time.AfterFunc(delay, func() { send(now) })
+		} else {
+			send(now)
+		}
+		if len(late) > 0 {
+			time.AfterFunc(lateDelay, func() { send(late) })
+		}
+	}
 }
 
 // read performs the one read that follows every transmission.
@@ -310,6 +362,7 @@ type runner struct {
 	readers map[string]bmc.SensorReader
 	trace   []M
 	wdog    time.Duration
+	udp     bool
 }
 
 func (r *runner) target(s M) bmc.Connection {
@@ -568,7 +621,33 @@ func (r *runner) run() {
 	if metricsMode {
 		r.ev(M{"ev": "metrics", "at": "start", "m": gatherMetrics()})
 	}
-	r.conn = bmc.NewV2SessionlessTransportVerif(r.mt, timeout, backoff.NewConstantBackOff(0))
+	if sc["transport"] == "udp" {
+		// hook-free: the library's own socket transport and back-off against a scripted BMC on the loopback
+		laddr, _ := net.ResolveUDPAddr("udp", "127.0.0.1:0")
+		srv, err := net.ListenUDP("udp", laddr)
+		if err != nil {
+			r.ev(M{"ev": "harnessError", "text": err.Error()})
+			return
+		}
+		defer srv.Close()
+		late := 2 * timeout
+		if opts != nil {
+			if ms, ok := opts["lateMs"]; ok {
+				late = time.Duration(num(ms)) * time.Millisecond
+			}
+		}
+		go r.mt.serveUDP(srv, late)
+		c, err := bmc.DialV2(srv.LocalAddr().String(), bmc.WithTimeout(timeout))
+		if err != nil {
+			r.ev(M{"ev": "harnessError", "text": err.Error()})
+			return
+		}
+		r.conn = c
+		defer c.Close()
+	} else {
+		r.conn = bmc.NewV2SessionlessTransportVerif(r.mt, timeout, backoff.NewConstantBackOff(0))
+	}
+	r.udp = sc["transport"] == "udp"
 	if metricsMode {
 		r.ev(M{"ev": "metrics", "at": "dial", "m": gatherMetrics()})
 	}
@@ -611,9 +690,14 @@ func (r *runner) run() {
 			}
 			ctx, cancel := context.WithTimeout(context.Background(), time.Duration(ms)*time.Millisecond)
 			if expired {
+				// a context whose deadline has already passed (C13 speaks of deadlines, not of cancellation)
 				cancel()
+				ctx, cancel = context.WithDeadline(context.Background(), time.Now().Add(-time.Second))
 			}
 			r.mt.cancel = cancel
+			if r.udp {
+				r.mt.cancel = nil // real time: only the context's own deadline ends a call
+			}
 			r.mt.unscripted = 0
 			r.mt.txfails = 0
 			call := M{"ev": "call", "api": s["api"]}
